@@ -259,7 +259,7 @@ Lemma run_cli_cat stdin fuel :
   | FPanic _ => CPanic
   end.
 Proof.
-  unfold run_cli. rewrite dec_cat. unfold run_level. fold code6.
+  unfold run_cli. rewrite dec_cat. unfold run_level, code6.
   change (0 =? 0) with true. cbv iota. reflexivity.
 Qed.
 
